@@ -168,8 +168,23 @@ theorem C32_exec_flag (st : St) (b' b : BD) (pk : Bool)
       | (obtain ⟨rfl, rfl⟩ := h; exact ⟨rfl, hp.symm, hk⟩)
       | (obtain ⟨_, rfl, rfl⟩ := h; exact ⟨rfl, hp.symm, hk⟩)
 
-/-- Every block the importer executes, in any history, has its parent known at that moment. -/
+/-- The flag of a `handed` event is the lookup of the block's parent in the known set at the moment
+    the strategy calls the importer. -/
+theorem C32_handed_flag (st : St) (b' b : BD) (pk : Bool)
+    (h : Ev.handed b pk ∈ (importBlock st b').2.1) : b = b' ∧ pk = st.known.contains b.parent := by
+  unfold importBlock at h
+  cases hk : st.known.contains b'.stated <;> cases hp : st.known.contains b'.parent <;>
+    cases hb : b'.hasBody <;> cases hj : b'.just <;>
+    simp only [hk, hp, hb, hj] at h <;> simp at h <;> (try split at h) <;> (try simp at h) <;>
+    (obtain ⟨rfl, rfl⟩ := h; exact ⟨rfl, hp.symm⟩)
+
+/-- Every block handed to the importer, in any history, has its parent known at that moment. -/
 theorem C32_parents_first (bad : List Nat) (ops : List Op) (b : BD) (pk : Bool)
+    (h : Ev.handed b pk ∈ (run bad ops).trace) : pk = true :=
+  (run_inv bad ops).flags _ h
+
+/-- ... in particular every block the importer goes on to execute. -/
+theorem C32_parents_first_exec (bad : List Nat) (ops : List Op) (b : BD) (pk : Bool)
     (h : Ev.exec b pk ∈ (run bad ops).trace) : pk = true :=
   (run_inv bad ops).flags _ h
 
@@ -273,5 +288,77 @@ theorem C32_accepted_honest_chain (bad : List Nat) (rs : List Result) (k : Kind)
     (h : (k, bs) ∈ (validateResults bad rs).valid) (hk : k.hdr = true) :
     bs ≠ [] ∧ isChain bs = true ∧ ∀ b ∈ bs, b.stated = b.id ∧ b.hasBody = true :=
   (validResp_of_mem h).hdr hk
+
+/-! ### a rejected response has no effect but on the reputation -/
+
+theorem valid_cons (bad : List Nat) (r : Result) (rest : List Result) :
+    (validateResults bad (r :: rest)).valid =
+    (match validateOne bad r with
+     | .accept bs => [(r.kind, bs)]
+     | _ => []) ++ (validateResults bad rest).valid := by
+  conv => lhs; unfold validateResults
+  cases validateOne bad r <;> rfl
+
+theorem validateResults_valid_append (bad : List Nat) : ∀ (a b : List Result),
+    (validateResults bad (a ++ b)).valid = (validateResults bad a).valid ++ (validateResults bad b).valid
+  | [], b => by simp [validateResults]
+  | r :: a, b => by
+    rw [List.cons_append, valid_cons, valid_cons, validateResults_valid_append bad a b,
+      List.append_assoc]
+
+theorem finish_indep (v1 v2 : Validated) (st : St) (ready : List (List BD)) :
+    (finish v1 st ready).st = (finish v2 st ready).st ∧
+    (finish v1 st ready).events = (finish v2 st ready).events ∧
+    (finish v1 st ready).outcome = (finish v2 st ready).outcome ∧
+    (finish v1 st ready).queued = (finish v2 st ready).queued := by
+  unfold finish
+  split
+  · exact ⟨rfl, rfl, rfl, rfl⟩
+  · simp only []
+    split
+    · split <;> exact ⟨rfl, rfl, rfl, rfl⟩
+    · exact ⟨rfl, rfl, rfl, rfl⟩
+
+/-- A response that `validateResults` rejects (not a chain, forged hash, missing field, bad block)
+    changes neither the state nor what is handed to the importer nor the re-requests: the call
+    behaves as if the response were not there. -/
+theorem C32_rejected_no_effect (bad : List Nat) (st : St) (rs1 rs2 : List Result) (r : Result)
+    (rep : Option Rep) (blk : Bool) (h : validateOne bad r = .reject rep blk) :
+    (process bad st (rs1 ++ r :: rs2)).st = (process bad st (rs1 ++ rs2)).st ∧
+    (process bad st (rs1 ++ r :: rs2)).events = (process bad st (rs1 ++ rs2)).events ∧
+    (process bad st (rs1 ++ r :: rs2)).outcome = (process bad st (rs1 ++ rs2)).outcome ∧
+    (process bad st (rs1 ++ r :: rs2)).queued = (process bad st (rs1 ++ rs2)).queued := by
+  have hv : (validateResults bad (rs1 ++ r :: rs2)).valid = (validateResults bad (rs1 ++ rs2)).valid := by
+    rw [validateResults_valid_append, validateResults_valid_append]
+    congr 1
+    rw [valid_cons, h]
+    rfl
+  unfold process
+  simp only []
+  rw [hv]
+  exact finish_indep _ _ _ _
+
+/-! ### the theorems are not vacuous: concrete histories -/
+
+private def blk (id parent num : Nat) : BD :=
+  { id := id, stated := id, parent := parent, num := num, hasHeader := true, hasBody := true, just := false }
+
+/-- chain 1..4 on genesis; the upper half arrives first, then a descending ancestor search -/
+private def demoOps : List Op :=
+  [ .proc [{ peer := 0, kind := .asc, completed := true, blocks := [blk 3 2 3, blk 4 3 4] }],
+    .proc [{ peer := 0, kind := .desc, completed := true, blocks := [blk 2 1 2, blk 1 0 1] }],
+    .proc [{ peer := 1, kind := .asc, completed := true, blocks := [blk 1 0 1, blk 2 1 2] }] ]
+
+example : execIds (run [] demoOps).trace = [1, 2, 3, 4] := by decide
+example : (run [] demoOps).outcomes = [.ok, .ok, .ok] := by decide
+example : (run [] (demoOps.take 1)).st.disjoint = [[blk 3 2 3, blk 4 3 4]] := by decide
+
+/-- a forged hash and a broken link are rejected with a reputation change -/
+private def forged : BD := { blk 1 0 1 with stated := 77 }
+private def resForged : Result := { peer := 0, kind := .asc, completed := true, blocks := [forged] }
+private def resBroken : Result :=
+  { peer := 0, kind := .asc, completed := true, blocks := [blk 1 0 1, blk 3 2 3] }
+example : validateOne [] resForged = .reject (some .hdr) false := by rfl
+example : validateOne [] resBroken = .reject (some .hdr) false := by rfl
 
 end Gossamer.C32
